@@ -1,3 +1,5 @@
 SPECIFICATION TraceSpec
 CHECK_DEADLOCK FALSE
 POSTCONDITION AllRead
+CONSTANTS
+  PxOk = TRUE
